@@ -27,10 +27,22 @@ def remotePrefix (host : Bytes) (l : Line) : Bytes :=
   b!"REMOTE" ++ [PIPE] ++ host ++ [PIPE] ++ pad3 l.perc ++ [PIPE] ++ natBytes l.count ++ [PIPE]
     ++ l.sourceID ++ [PIPE]
 
-/-- What one server `Read(p)` call returns for a line: the frame cut to `len(p)`
-    (`n = copy(p, readBuf)`, the rest is discarded by `readBuf.Reset()`). -/
+/-- The frame the server `Read` produces for a line (after the fix it is delivered
+    completely, in pieces of at most `len(p)` bytes). -/
+def frameOf (plain : Bool) (host : Bytes) (l : Line) : Bytes :=
+  (if plain then [] else remotePrefix host l) ++ l.content ++ [DELIM]
+
+/-- the pieces successive `Read(p)` calls return for one frame: `bytes.Buffer.Read` hands out
+    at most `len(p)` bytes at a time (fuel = the frame's length) -/
+def readPieces (bufLen : Nat) : Nat → Bytes → List Bytes
+  | 0, _ => []
+  | _, [] => []
+  | fuel + 1, bs => if bufLen = 0 then [] else bs.take bufLen :: readPieces bufLen fuel (bs.drop bufLen)
+
+/-- kept for the statement of the repaired defect: what one `Read(p)` returned before the
+    fix (`n = copy(p, readBuf)`, the rest discarded) -/
 def frameLine (plain : Bool) (host : Bytes) (bufLen : Nat) (l : Line) : Bytes :=
-  ((if plain then [] else remotePrefix host l) ++ l.content ++ [DELIM]).take bufLen
+  (frameOf plain host l).take bufLen
 
 /-- Client handler state: receive buffer and the messages dispatched so far. -/
 structure CS where
@@ -57,7 +69,12 @@ def catLines (id : Bytes) (raw : List Bytes) : List Line :=
 
 /-- End-to-end `dcat --plain`: reader, framing, any transport chunking (irrelevant:
     the client is a fold over bytes), client output. -/
-def dcatPlain (m bufLen : Nat) (bs : Bytes) : Bytes :=
+def dcatPlain (m : Nat) (bs : Bytes) : Bytes :=
+  printed (clientFeed ⟨[], []⟩
+    ((catLines [] (readLines m bs)).map (frameOf true [])).flatten).msgs
+
+/-- the same pipeline before the fix (frames cut to the transport buffer) -/
+def dcatPlainOld (m bufLen : Nat) (bs : Bytes) : Bytes :=
   printed (clientFeed ⟨[], []⟩
     ((catLines [] (readLines m bs)).map (frameLine true [] bufLen)).flatten).msgs
 
@@ -67,8 +84,4 @@ def dcatPlain (m bufLen : Nat) (bs : Bytes) : Bytes :=
 def sigDelim (bs : Bytes) : Bool := bs.contains DELIM
 /-- some raw line starts with '.', the hidden-message marker -/
 def sigDot (m : Nat) (bs : Bytes) : Bool := (readLines m bs).any (fun l => l.head? = some DOT)
-/-- some raw line plus its delimiter exceeds the transport copy buffer -/
-def sigLong (m bufLen : Nat) (bs : Bytes) : Bool :=
-  (readLines m bs).any (fun l => l.length + 1 > bufLen)
-
 end Dtail
